@@ -72,6 +72,7 @@ func NewEngine(modulePath string) *Engine {
 	registerTree(e)
 	registerRLP(e)
 	registerCrypto(e)
+	registerKeccak(e)
 	return e
 }
 
